@@ -84,11 +84,20 @@ func (e *exec) stallread() {
 	}
 	opens, closesA := 0, 0
 	var closeErr error
+	// the application may be away (longer than any timeout of the library) while the channel dies
+	away := vmc.Choose(2, "consumer-away") == 1
 	vmc.GoApp("consumer", func() {
 		e.log.Consume(n, -1, func(ev gomavlib.Event) {
 			switch x := ev.(type) {
 			case *gomavlib.EventChannelOpen:
 				opens++
+				if away && opens == 2 {
+					defer func() {
+						until := vmc.NowNS() + int64(25*time.Second)
+						vmc.AddWake(vmc.Now().Add(25*time.Second), "consumer-away")
+						vmc.Await("consumer away", func() bool { return vmc.NowNS() >= until })
+					}()
+				}
 			case *gomavlib.EventChannelClose:
 				if _, isCustom := x.Channel.Endpoint().Conf().(gomavlib.EndpointCustom); !isCustom {
 					closesA++
@@ -102,12 +111,16 @@ func (e *exec) stallread() {
 		n.WriteMessageAll(ping(i)) //nolint
 	}
 	e.a.FailRead(io.EOF)
-	vmc.AddWake(vmc.Now().Add(6*time.Second), "settle")
-	target := vmc.NowNS() + int64(6*time.Second)
+	settle := 6 * time.Second
+	if away {
+		settle = 32 * time.Second
+	}
+	vmc.AddWake(vmc.Now().Add(settle), "settle")
+	target := vmc.NowNS() + int64(settle)
 	vmc.Await("settled", func() bool { return vmc.NowNS() >= target })
 	if closesA == 0 {
 		e.problems = append(e.problems, "the transport's read side failed while its writer is stuck in Write: no close event, the channel stays open and silent")
-	} else if closeErr != io.EOF {
+	} else if !errors.Is(closeErr, io.EOF) {
 		e.problems = append(e.problems, fmt.Sprintf("close event carries %v, the transport failed with EOF", closeErr))
 	}
 	if !a2.Handed {
@@ -300,7 +313,7 @@ func (e *exec) Body() {
 	target := vmc.NowNS() + int64(5*time.Second)
 	vmc.Await("settled", func() bool { return vmc.NowNS() >= target })
 
-	gotA := e.numbers(e.a.Written)
+	gotA := e.numbersTolerant(e.a)
 	gotB := e.numbers(e.b.Written)
 	if fmt.Sprint(gotB) != fmt.Sprint(wantB) {
 		e.problems = append(e.problems, fmt.Sprintf("healthy channel B received %v, submitted %v", gotB, wantB))
@@ -320,9 +333,10 @@ func (e *exec) Body() {
 		if !e.closeA {
 			wantAfter := wantA
 			if p.Fault == "write-error" || p.Fault == "write-timeout" {
-				// the item of the failing call is lost; everything else must arrive
-				idx := e.failAt - 1
-				if idx < len(wantA) {
+				// the item in flight at the failing call is lost (it is the one after the frames
+				// completed by the calls accepted before); everything else must arrive
+				idx := e.completeBeforeCall(e.a, e.failAt)
+				if idx >= 0 && idx < len(wantA) {
 					wantAfter = append(append([]uint32{}, wantA[:idx]...), wantA[idx+1:]...)
 				}
 			}
@@ -336,12 +350,53 @@ func (e *exec) Body() {
 	vmc.Finish()
 }
 
+// numbersTolerant: transport A is the one the scenario damages: a failing or blocking Write call
+// may leave a fragment of the frame in flight on the wire (when a frame reaches the transport in
+// several calls); complete frames are recovered around it.
+func (e *exec) numbersTolerant(c *vnet.FakeConn) []uint32 {
+	if e.p.Scenario != "stall" && e.p.Fault != "write-error" && e.p.Fault != "write-timeout" {
+		return e.numbers(c.Written) // the transport itself is healthy: whole frames only
+	}
+	frames, _ := sx.ScanWire(sx.Concat(c.Written), false)
+	return e.numbersOf(frames)
+}
+
+// completeBeforeCall: number of complete frames in the bytes accepted before the k-th Write call.
+func (e *exec) completeBeforeCall(c *vnet.FakeConn, k int) int {
+	calls, bytes := 0, 0
+	for _, io := range c.IO {
+		if !io.Write {
+			continue
+		}
+		calls++
+		if calls == k {
+			break
+		}
+		if io.Done {
+			bytes += io.N
+		}
+	}
+	if calls < k {
+		return -1 // the failing call was never reached
+	}
+	all := sx.Concat(c.Written)
+	if bytes > len(all) {
+		bytes = len(all)
+	}
+	frames, _ := sx.ScanWire(all[:bytes], false)
+	return len(frames)
+}
+
 // numbers extracts the ping sequence numbers (or raw first payload byte) written to a transport.
 func (e *exec) numbers(writes [][]byte) []uint32 {
 	frames, prob := sx.ParseWire(writes)
 	if prob != "" {
 		e.problems = append(e.problems, prob)
 	}
+	return e.numbersOf(frames)
+}
+
+func (e *exec) numbersOf(frames []*ref.Frame) []uint32 {
 	var out []uint32
 	for _, f := range frames {
 		if f.ID != 4 {
